@@ -109,6 +109,11 @@ def shard_short(ctx, shard: int) -> None:
     ctx.notes["inputs_offered"] = ctx.notes.get("inputs_offered", 0) + n
 
 
+def shard_short_range(ctx, lo: int, hi: int) -> None:
+    for shard in range(lo, hi):
+        shard_short(ctx, shard)
+
+
 def shard_structured(ctx, lo: int, hi: int) -> None:
     n = 0
     for code, raw, label in G.all_apdus(ctx.seed, range(lo, hi)):
@@ -166,8 +171,11 @@ def selftest(ctx) -> None:
 
 def run(ctx) -> None:
     run_valid(ctx)
-    parallel(ctx, shard_short, [(i,) for i in range(G.N_SHORT_SHARDS)])
-    parallel(ctx, shard_structured, [(i, i + 32) for i in range(0, 1024, 32)])
+    # few, large shards: forking is the dominant cost of the quick tier on a busy box
+    jobs = ctx.n(4, 16)
+    per = G.N_SHORT_SHARDS // jobs
+    parallel(ctx, shard_short_range, [(i * per, (i + 1) * per) for i in range(jobs)], procs=jobs)
+    parallel(ctx, shard_structured, [(i * (1024 // jobs), (i + 1) * (1024 // jobs)) for i in range(jobs)], procs=jobs)
     hyp_search(ctx, G.apdu(), oracle, ctx.n(3000, 40000))
     ctx.exhaustive = True
     ctx.notes["exhaustive_part"] = "accepted APDUs of length 0..2" + (" and 3" if not ctx.quick else "; length 3 strided 1/16")
